@@ -97,11 +97,19 @@ func (j *Job) noteFailing(id string) {
 func (j *Job) wantCandidate(id string) bool {
 	j.mu.Lock()
 	defer j.mu.Unlock()
-	if j.candPer[id] >= j.cfg.MaxCandPer {
-		return false
-	}
+	return j.candPer[id] < j.cfg.MaxCandPer
+}
+
+func (j *Job) tookCandidate(id string) {
+	j.mu.Lock()
 	j.candPer[id]++
-	return true
+	j.mu.Unlock()
+}
+
+func (j *Job) reached(id string) bool {
+	j.mu.Lock()
+	defer j.mu.Unlock()
+	return j.res.Reach[id] > 0
 }
 
 func (j *Job) isKnownOpen(id string) bool {
@@ -286,6 +294,7 @@ func (j *Job) runPath(solver *Solver, prefix []Decision) {
 		m, margin, r := p.findModel(TTrue)
 		if r == Sat {
 			if j.wantCandidate("no-panic") {
+				j.tookCandidate("no-panic")
 				p.cands = append(p.cands, Candidate{AssertID: "no-panic", Kind: "panic", Msg: endMsg, Model: m, Margin: margin, Path: p.pathString()})
 			}
 			j.noteFailing("no-panic")
